@@ -439,24 +439,53 @@ def _gen_steps():
 
 
 def _check_renew_skip_marks():
+    """`_skip_descendants_of_skipped_tasks` (fix 0574d89 / F33, extended by the fix for F38): for every task yielded by
+    `_skipped_tasks(session)`, every task in `descending_tasks(task.signature, session.dag)` that has no `skip` mark gets one.
+    `_skipped_tasks` yields `report.task` only for reports whose outcome is SKIP, and tasks of `session.tasks` only under a condition
+    on their own `skip` / `skipif` markers. M7 has neither skip marks nor a SKIP outcome, so nothing else may be touched."""
     fn = _top_func("provisional_utils.py", "_skip_descendants_of_skipped_tasks")
     loops = [st for st in _body(fn) if isinstance(st, ast.For)]
     if len(loops) != 1 or any(not _no_effect(st) for st in _body(fn) if st is not loops[0]):
-        raise _err("_skip_descendants_of_skipped_tasks: expected one loop over the execution reports")
+        raise _err("_skip_descendants_of_skipped_tasks: expected one loop over the skipped tasks")
     lp = loops[0]
-    if _u(lp.iter) != "session.execution_reports" or not isinstance(lp.target, ast.Name):
+    if _u(lp.iter) != "_skipped_tasks(session)" or not isinstance(lp.target, ast.Name):
         raise _err(f"_skip_descendants_of_skipped_tasks: loops over {_u(lp.iter)!r}")
     r = lp.target.id
-    first = lp.body[0] if lp.body else None
-    ok = isinstance(first, ast.If) and _u(first.test) == f"{r}.outcome != TaskOutcome.SKIP" and len(first.body) == 1 and \
-        isinstance(first.body[0], ast.Continue) and not first.orelse
-    if not ok:
-        raise _err("_skip_descendants_of_skipped_tasks: does not skip reports whose outcome is not SKIP")
+    inner = [st for st in lp.body if isinstance(st, ast.For)]
+    if len(inner) != 1 or len(lp.body) != 1 or _u(inner[0].iter) != f"descending_tasks({r}.signature, session.dag)":
+        raise _err("_skip_descendants_of_skipped_tasks: expected one loop over descending_tasks(task.signature, session.dag)")
+    src = _u(inner[0])
+    if "has_mark(" not in src or "'skip'" not in src:
+        raise _err("_skip_descendants_of_skipped_tasks: no has_mark(…, 'skip') guard")
+    marks = [n for n in ast.walk(lp) if isinstance(n, ast.Call) and _callee(n) == "Mark"]
+    if len(marks) != 1 or _u(marks[0].args[0]) != "'skip'":
+        raise _err("_skip_descendants_of_skipped_tasks: does not attach exactly the mark 'skip'")
     for n in ast.walk(lp):
         if isinstance(n, ast.Attribute) and isinstance(n.ctx, ast.Store):
             raise _err("_skip_descendants_of_skipped_tasks: stores to an attribute")
-        if isinstance(n, ast.Call) and _callee(n) == "Mark" and _u(n.args[0]) != "'skip'":
-            raise _err(f"_skip_descendants_of_skipped_tasks: attaches the mark {_u(n.args[0])}")
+    # the source of the skipped tasks
+    gen = _top_func("provisional_utils.py", "_skipped_tasks")
+    gloops = [st for st in _body(gen) if isinstance(st, ast.For)]
+    if not gloops or any(not _no_effect(st) for st in _body(gen) if st not in gloops):
+        raise _err("_skipped_tasks: expected only loops")
+    for gl in gloops:
+        it = _u(gl.iter)
+        if len(gl.body) != 1 or not isinstance(gl.body[0], ast.If) or gl.body[0].orelse or len(gl.body[0].body) != 1 or \
+                not (isinstance(gl.body[0].body[0], ast.Expr) and isinstance(gl.body[0].body[0].value, ast.Yield)):
+            raise _err(f"_skipped_tasks: loop over {it!r} is not `if <cond>: yield <task>`")
+        cond, yv = _u(gl.body[0].test), _u(gl.body[0].body[0].value.value)
+        v = gl.target.id if isinstance(gl.target, ast.Name) else None
+        if it == "session.execution_reports":
+            if cond != f"{v}.outcome == TaskOutcome.SKIP" or yv != f"{v}.task":
+                raise _err(f"_skipped_tasks: from the reports yields {yv!r} if {cond!r}")
+        elif it == "session.tasks":
+            if yv != v or f"has_mark({v}, 'skip')" not in cond or "'skipif'" not in cond:
+                raise _err(f"_skipped_tasks: from the tasks yields {yv!r} if {cond[:80]!r}")
+        else:
+            raise _err(f"_skipped_tasks: loops over {it!r}")
+        for n in ast.walk(gl):
+            if isinstance(n, ast.Attribute) and isinstance(n.ctx, ast.Store):
+                raise _err("_skipped_tasks: stores to an attribute")
 
 
 def _check_renew_fail_marks():
